@@ -81,7 +81,12 @@ fn lookup_ops(enc: &'static encoding_rs::Encoding) -> Vec<Op> {
 /// Check the read API for one tag in one context under one schedule.
 fn check_read(p: &Prepared, doc: &[u8], tag_start: usize, tag_len: usize, ns: Ns, cut: Option<usize>) -> (Option<String>, usize, bool) {
     let tag = &doc[tag_start..tag_start + tag_len];
-    let Some(exp) = expectation(tag, ns, p.encoding) else { return (None, 0, false) };
+    let Some(mut exp) = expectation(tag, ns, p.encoding) else { return (None, 0, false) };
+    // with enable_esi_tags the two content-less ESI elements are void as well
+    // (ESI is an XML vocabulary: the names are matched case-sensitively)
+    if p.cfg.esi && ns == Ns::Html && (exp.name_pc == "esi:include" || exp.name_pc == "esi:comment") {
+        exp.can_have_content = false;
+    }
     let chunks: Vec<&[u8]> = match cut {
         Some(c) => vec![&doc[..c], &doc[c..]],
         None => vec![doc],
@@ -372,6 +377,39 @@ pub fn run_check(ctx: &Ctx) -> i32 {
     });
     if !ctx.capped.load(std::sync::atomic::Ordering::Relaxed) {
         ctx.level_done(&format!("5 tag names x pieces<={max} (and {} further names: every void element, case variants, near misses, ordinary names x pieces<=2) x 8 contexts x 3 encodings x every cut inside the tag; 9 edits + re-read up to pieces<={}", NAMES.len() - DEEP_NAMES, if max > 3 { max - 1 } else { max }));
+    }
+    // ESI tags: void only when the setting is on
+    {
+        const ESI_NAMES: &[&str] = &["esi:include", "esi:comment", "esi:remove", "ESI:Include", "esi:includes", "esi:", "esi-include", "xesi:include"];
+        let pe: Vec<Prepared> = [true, false].iter().map(|&on| Prepared::new(Cfg { esi: on, ..base_cfg("UTF-8", lookup_ops(encoding_rs::UTF_8)) }).unwrap()).collect();
+        let n2 = crate::alpha::count_upto(PIECES.len(), 2);
+        par_for(n2 * ESI_NAMES.len(), 8, |j| {
+            let mut idx = vec![];
+            crate::alpha::seq_at(j / ESI_NAMES.len(), PIECES.len(), &mut idx);
+            let mut tag = format!("<{}", ESI_NAMES[j % ESI_NAMES.len()]);
+            for &i in &idx {
+                tag.push_str(PIECES[i]);
+            }
+            tag.push('>');
+            for (pre, ns) in [("", Ns::Html), ("<svg>", Ns::Svg)] {
+                let mut doc = pre.as_bytes().to_vec();
+                let start = doc.len();
+                doc.extend_from_slice(tag.as_bytes());
+                doc.extend_from_slice(b"x<b>");
+                for p in &pe {
+                    for cut in std::iter::once(None).chain((start + 1..start + tag.len()).map(Some)) {
+                        let (m, calls, _) = check_read(p, &doc, start, tag.len(), ns, cut);
+                        ctx.exec(calls);
+                        ctx.validated(1);
+                        if let Some(msg) = m {
+                            let (p2, d2, tl) = (Prepared::new(p.cfg.clone()).unwrap(), doc.clone(), tag.len());
+                            ctx.violation(format!("enable_esi_tags={}: {msg}", p.cfg.esi), json!({"kind": "esi", "esi": p.cfg.esi, "doc_lossy": lossy(&doc), "cut": cut}), &|| check_read(&p2, &d2, start, tl, ns, cut).0.map(|m| format!("enable_esi_tags={}: {m}", p2.cfg.esi)));
+                        }
+                    }
+                }
+            }
+        });
+        ctx.level_done("8 ESI-like tag names x pieces<=2 x {HTML, svg} x enable_esi_tags {on, off} x every cut (esi:include / esi:comment are void only when the setting is on)");
     }
     // the listed finding's own slice: every tag <= 2 pieces directly after an HTML element that is
     // named like the enclosing integration point
